@@ -20,6 +20,8 @@ def is_concrete(v) -> bool:
         return False
     if isinstance(v, tuple):
         return all(is_concrete(x) for x in v)
+    if isinstance(v, ListV):
+        return all(is_concrete(x) for x in v.items) and not v.may
     return True
 
 
@@ -800,6 +802,17 @@ class InterpCore:
                 self.throw("TypeError", f"{cls.name}.__init__() got multiple values for argument {k!r}", node)
             vals[k] = v
         for f in fields:
+            v = vals.get(f.name)
+            if isinstance(v, Sym) and v.info.get("maybe_absent"):
+                stored = v.info["alts"][:-1]
+                if f.default is not MISSING:
+                    dv = self.field_default(f)
+                    vals[f.name] = Sym(("maybe", tuple(term_of(x) for x in stored), term_of(dv)), "any", alts=list(stored) + [dv])
+                else:
+                    run.emit("raise-site", "TypeError", self.site(node),
+                             f"{cls.name}.__init__() misses required argument {f.name!r} on the path where it was not stored")
+                    vals[f.name] = stored[0] if len(stored) == 1 else Sym(("maybe", tuple(term_of(x) for x in stored)), "any", alts=list(stored))
+        for f in fields:
             if f.name not in vals:
                 if f.default is not MISSING:
                     vals[f.name] = self.field_default(f)
@@ -1111,6 +1124,11 @@ class InterpCore:
                     if not isinstance(kk, str):
                         self.throw("TypeError", "keywords must be strings", e)
                     kwargs[kk] = vv
+                for kk, vs in (d.may or {}).items():
+                    if kk not in d.d and isinstance(kk, str):
+                        # keyword present only when an earlier loop stored it
+                        kwargs[kk] = Sym(("maybe", tuple(term_of(x) for x in vs), ("absent",)), "any", alts=list(vs) + [MISSING],
+                                         maybe_absent=True)
             else:
                 kwargs[kw.arg] = self.ev(kw.value, env, run)
         if isinstance(fn, LibFn) and fn.name == "super" and not args:
